@@ -6,7 +6,7 @@ from vf.core import call, exc_desc
 from vf.lazy import ck, libx, common
 
 PROP = "C16"
-TECHNIQUE = ('history + executable model: icontract invariants on Ranking / Dataset evaluated after every public method, full structural predicate and model equality after every step of random mutation histories; almost-integer and twin names; hand-built consensuses; histories on datasets of 10 000+ cells; the caller changes the list it had given to the constructor; rankings built from one-shot iterables under the Ranking invariant')
+TECHNIQUE = ('history + executable model: icontract invariants on Ranking / Dataset evaluated after every public method, full structural predicate and model equality after every step of random mutation histories; almost-integer and twin names; hand-built consensuses; histories on datasets of 10 000+ cells; the caller changes the list it had given to the constructor; rankings built from one-shot iterables under the Ranking invariant; constructor arguments naming an element twice')
 RULE = ("history + executable model: a dataset (D2-D7, D12 names: ints, strings, int-like strings mixed with words so that "
         "removals change the expected element type) receives a random history of 3-10 operations among remove_elements "
         "(subset / non-members / everything), remove_elements_rate_presence_lower_than (rates 0..1 and boundaries k/m), "
